@@ -14,17 +14,19 @@ def InfoArea.okFor (v : Variant) (k : InputKind) (a : InfoArea) : Bool :=
 def FruImage.okFor (v : Variant) (k : InputKind) (img : FruImage) : Bool :=
   optAll (fun c => c.toArea.okFor v k) img.chassis &&
   optAll (fun b => b.toArea.okFor v k) img.board &&
-  optAll (fun p => p.toArea.okFor v k) img.product
+  optAll (fun p => p.toArea.okFor v k) img.product &&
+  img.records.all (·.okFor v)
 
 theorem InfoArea.okFor_intended (k : InputKind) (a : InfoArea) : a.okFor .intended k = true := by
   simp [InfoArea.okFor, Field.okFor_intended]
 
 theorem FruImage.okFor_intended (k : InputKind) (img : FruImage) : img.okFor .intended k = true := by
   simp only [FruImage.okFor, Bool.and_eq_true]
-  refine ⟨⟨?_, ?_⟩, ?_⟩
+  refine ⟨⟨⟨?_, ?_⟩, ?_⟩, ?_⟩
   · cases img.chassis <;> simp [optAll, InfoArea.okFor_intended]
   · cases img.board <;> simp [optAll, InfoArea.okFor_intended]
   · cases img.product <;> simp [optAll, InfoArea.okFor_intended]
+  · simp [Record.okFor_intended]
 
 /-! ### part lengths -/
 
@@ -130,7 +132,7 @@ def parseFruBody (v : Variant) (k : InputKind) (bs : List Nat) : Outcome FruView
   (slotStep h.chassisOff bs (parseArea v k .chassis)).bind fun c =>
   (slotStep h.boardOff bs (parseArea v k .board)).bind fun b =>
   (slotStep h.productOff bs (parseArea v k .product)).bind fun p =>
-  (slotStep h.multiOff bs parseMulti).bind fun m =>
+  (slotStep h.multiOff bs (parseMulti v)).bind fun m =>
   .ok ⟨some h, c, b, p, m⟩
 
 theorem parseFru_ne_nil (v : Variant) (k : InputKind) (bs : List Nat) (h : bs ≠ []) :
@@ -160,8 +162,8 @@ theorem parse_encode_gen (v : Variant) (k : InputKind) (img : FruImage)
     (hwf : img.wf = true) (hok : img.okFor v k = true) :
     parseFru v k (encodeFru img) = .ok (view img) := by
   obtain ⟨wc, wb, wp, wr⟩ := wf_parts img hwf
-  simp only [FruImage.okFor, Bool.and_eq_true] at hok
-  obtain ⟨⟨okc, okb⟩, okp⟩ := hok
+  simp only [FruImage.okFor, Bool.and_eq_true, List.all_eq_true] at hok
+  obtain ⟨⟨⟨okc, okb⟩, okp⟩, okr⟩ := hok
   rw [parseFru_ne_nil v k _ (encodeFru_ne_nil img)]
   unfold parseFruBody
   rw [take_header, parseHeader_header]
@@ -194,7 +196,7 @@ theorem parse_encode_gen (v : Variant) (k : InputKind) (img : FruImage)
       (fun p _ => product_fits p)
     simpa [encodeFru, FruImage.prOff, FruImage.parts, header_length, List.append_assoc, Nat.add_assoc] using this
   -- multi-record area
-  have sm : slotStep img.mrOff (encodeFru img) parseMulti =
+  have sm : slotStep img.mrOff (encodeFru img) (parseMulti v) =
       .ok (if img.records.isEmpty then .absent else .parsed (viewRecords img.records)) := by
     by_cases he : img.records = []
     · simp [slotStep, FruImage.mrOff, offOf, he]
@@ -209,7 +211,7 @@ theorem parse_encode_gen (v : Variant) (k : InputKind) (img : FruImage)
         simp [encodeFru, FruImage.parts, List.append_assoc]
       have hpos : img.mrOff ≠ 0 := by rw [hoff]; simp [header_length]
       simp only [slotStep, if_neg hpos, hne]
-      rw [hbs, hoff, List.drop_left' rfl, parseMulti_encode _ _ he wr]
+      rw [hbs, hoff, List.drop_left' rfl, parseMulti_encode v _ _ he wr okr]
       rfl
   simp only [sc, sb, sp, sm, Outcome.bind_ok, view]
 
